@@ -565,6 +565,16 @@ def run(ctx):
         ctx.broken.append("library does not build from the working tree: " + liblog[-500:])
         return ctx.finish(LEVEL)
     proved = ctx.prove(["Properties_C16.v"], ["GenSort"])
+    try:
+        import srcfacts
+        f = srcfacts.GENERATORS["GenSort"]()[1]
+        shared = f["lang_by_pointer"] and f["lang_shared_scratch"]
+        fresh = f["lang_cleared_per_key"] or not f["lang_shared_scratch"]
+        ctx.notes["lang_configuration"] = ("shared lang string (K-C16-1: _refuted/_partial theorems are the live ones)" if shared and not fresh
+                                           else "one lang string per key (key_attrs_independent_when_repaired is the live theorem)" if fresh and not shared
+                                           else "not covered by the theorems")
+    except Exception as ex:
+        ctx.notes["lang_configuration"] = "unknown: %s" % ex
     model, ok_m, mlog = core.build_model(FAMILY)
     if not ok_m:
         ctx.broken.append("model extraction/build failed: " + mlog[-500:])
@@ -584,7 +594,7 @@ def run(ctx):
         ctx.broken.append("collation assumption does not hold in this environment: " + "; ".join(probe[:3]))
     run_lang_corpus(ctx, exe, known)
 
-    count = 700 if not ctx.thorough else 6000
+    count = 700 if not ctx.thorough else 20000
     cases = gen_cases(ctx, count)
     ctx.cov["samples"] = [sort_elems_xml(c) + " over " + " and ".join(c["sels"]) + " n=%d" % c["n"] for c in cases[8:14]]
     corr, orc = evaluate(ctx, cases, exe, model)
